@@ -30,6 +30,7 @@ package main
 
 import (
 	"strings"
+	"unicode"
 
 	"verif/mc"
 )
@@ -63,8 +64,12 @@ func cellsString(c []cell) string {
 	return sb.String()
 }
 
-// invScan: text that the template scan (pass 1/3) turns back into c.
-func invScan(c []cell, rawControls bool) []cell {
+// invScan: text that the template scan (pass 1/3) turns back into c. With all
+// set every literal character is written as `\x` (S1 "`\x` makes any character
+// literal"), except the letters n, t, r (which `\x` turns into control
+// characters) and, unless rawControls, the control characters themselves
+// (written \n \t \r).
+func invScan(c []cell, rawControls, all bool) []cell {
 	out := make([]cell, 0, len(c)*2)
 	for _, x := range c {
 		if x.s {
@@ -76,11 +81,19 @@ func invScan(c []cell, rawControls bool) []cell {
 			out = append(out, cell{r: '\\'}, cell{r: x.r})
 		case '\n', '\t', '\r':
 			if rawControls {
+				if all {
+					out = append(out, cell{r: '\\'})
+				}
 				out = append(out, x)
 			} else {
 				out = append(out, cell{r: '\\'}, cell{r: map[rune]rune{'\n': 'n', '\t': 't', '\r': 'r'}[x.r]})
 			}
+		case 'n', 't', 'r':
+			out = append(out, x)
 		default:
+			if all {
+				out = append(out, cell{r: '\\'})
+			}
 			out = append(out, x)
 		}
 	}
@@ -88,8 +101,10 @@ func invScan(c []cell, rawControls bool) []cell {
 }
 
 // invSplit: text that the argument split (pass 2) turns back into c as ONE
-// argument.
-func invSplit(c []cell, quoted bool) []cell {
+// argument. With all set every literal character is written as `\x`; the
+// letters n, t, r are left alone (the statement does not say whether the
+// split gives the letter or the control character for them).
+func invSplit(c []cell, quoted, all bool) []cell {
 	out := make([]cell, 0, len(c)*2)
 	for _, x := range c {
 		if x.s {
@@ -100,12 +115,19 @@ func invSplit(c []cell, quoted bool) []cell {
 		case '\\', '"', '{', '}':
 			out = append(out, cell{r: '\\'}, cell{r: x.r})
 		case ' ', '\n', '\t', '\r':
-			if quoted {
+			if quoted && !all {
 				out = append(out, x)
 			} else {
 				out = append(out, cell{r: '\\'}, cell{r: x.r})
 			}
+		case 'n', 't', 'r':
+			out = append(out, x)
 		default:
+			// white space other than blank, tab, CR, LF: S2 does not say whether it
+			// separates arguments, S1 says that escaped it is literal
+			if all || (!quoted && unicode.IsSpace(x.r)) {
+				out = append(out, cell{r: '\\'})
+			}
 			out = append(out, x)
 		}
 	}
@@ -189,12 +211,22 @@ const (
 	evRawControls
 	evSepTab
 	evWrap
+	evEscAll
+	evEscLeaf
+)
+
+// escape styles of the part-E printer
+const (
+	escNeeded = iota // a backslash only where a pass needs one
+	escAll           // every pass: a backslash before every literal character
+	escLeaf          // the innermost pass (the leaf's own text): every character; outer passes: where needed
 )
 
 type eprinter struct {
 	ex   *mc.Explorer
 	used int
 	raw  bool
+	all  int
 }
 
 func hasSyntaxQuote(c []cell) bool {
@@ -210,10 +242,11 @@ func hasSyntaxQuote(c []cell) bool {
 func (p *eprinter) written(t *etree) []cell {
 	switch t.k {
 	case eText:
-		return invScan(lit(t.text), p.raw)
+		return invScan(lit(t.text), p.raw, p.all != escNeeded)
 	case eLookup:
+		// the statement's own two passes (scan, split) read the key
 		out := syn("{")
-		out = append(out, lit(t.text)...)
+		out = append(out, invScan(invSplit(lit(t.text), false, p.all != escNeeded), p.raw, p.all != escNeeded)...)
 		return append(out, syn("}")...)
 	case eSeq:
 		var out []cell
@@ -240,15 +273,15 @@ func (p *eprinter) written(t *etree) []cell {
 		}
 		if quoted {
 			s = append(s, syn(`"`)...)
-			s = append(s, invSplit(aw, true)...)
+			s = append(s, invSplit(aw, true, p.all == escAll)...)
 			s = append(s, syn(`"`)...)
 		} else {
-			s = append(s, invSplit(aw, false)...)
+			s = append(s, invSplit(aw, false, p.all == escAll)...)
 		}
 	}
 	// ... and as it must be written inside the braces so that the scan delivers it
 	out := syn("{")
-	out = append(out, invScan(s, p.raw)...)
+	out = append(out, invScan(s, p.raw, p.all == escAll)...)
 	return append(out, syn("}")...)
 }
 
@@ -256,6 +289,12 @@ func (p *eprinter) top(t *etree) (template, want string) {
 	if p.ex.Choose(2, "controls") == 1 {
 		p.raw = true
 		p.used |= evRawControls
+	}
+	switch p.all = p.ex.Choose(3, "escape-style"); p.all {
+	case escAll:
+		p.used |= evEscAll
+	case escLeaf:
+		p.used |= evEscLeaf
 	}
 	s := cellsString(p.written(t))
 	if p.ex.Choose(2, "wrap") == 1 {
@@ -270,7 +309,8 @@ func eVariantName(used int) string {
 	for _, v := range []struct {
 		bit  int
 		name string
-	}{{evQuoted, "quoted"}, {evRawControls, "raw-controls"}, {evSepTab, "tab"}, {evWrap, "literal-neighbours"}} {
+	}{{evQuoted, "quoted"}, {evRawControls, "raw-controls"}, {evSepTab, "tab"}, {evWrap, "literal-neighbours"},
+		{evEscAll, "every-character-escaped"}, {evEscLeaf, "leaf-characters-escaped"}} {
 		if used&v.bit != 0 {
 			names = append(names, v.name)
 		}
